@@ -85,7 +85,7 @@ pub fn run(tier: Tier) -> i32 {
     let orders: Vec<usize> = tier.pick((2..=24).filter(|o| *o <= 8 || o % 4 == 0 || *o == 23).collect(), (2..=24).collect());
     let stages: &[usize] = &[1, 2, 3, 4];
     let alphas = [0.0, 0.3, 0.6];
-    rep.set_rule("SCOPE: LSP orders x stages 1..4 x alpha {0,.3,.6} x {linear, log} gain x K {0.5,1,2}; LSP sets = all compositions of the order+1 gaps from {1,2,4} units (orders up to the full bound) or uniform + every single gap narrowed/widened (larger orders), all with spacing >= pi/(4(order+1)); real Vocoder pulse responses of the first and the second frame at F0=20Hz; oracle ln K - s ln|A(e^{jw~})| within 0.001 Np at grid frequencies within 100 dB of the peak, response finite and decaying; distinct = (order, stage, alpha, gain form, K, LSP set)");
+    rep.set_rule("SCOPE: LSP orders x stages 1..4 x alpha {0,.3,.6} x {linear, log} gain x K {0.5,1,2}; LSP sets = all compositions of the order+1 gaps from {1,2,4} units (orders up to the full bound) or uniform + every single gap narrowed/widened (larger orders), all with spacing >= pi/(4(order+1)); real Vocoder pulse responses of the first and the second frame at F0=20Hz, and on every 5th case the 3rd/4th frame after a first frame with another gain (same frequencies) or with other frequencies; oracle ln K - s ln|A(e^{jw~})| within 0.001 Np at grid frequencies within 100 dB of the peak, response finite and decaying; distinct = (order, stage, alpha, gain form, K, LSP set)");
     rep.assume("LSP sets on the gap lattice only; nominal rate raised (8k..8M) only to lengthen T0 until the truncated tail is < 1e-9 of the peak");
     let mut cases: Vec<(usize, usize, f64, bool, f64, Vec<f64>)> = Vec::new();
     for &order in &orders {
@@ -152,7 +152,58 @@ pub fn run(tier: Tier) -> i32 {
                     }
                 }
                 if !(err <= 0.001) {
-                    rep.violation("spectrum", format!("|H| deviates {:.5} Np from K/|A(e^jw~)|^s (order {}, stage {}, alpha {}, log_gain {}, K {})", err, order, stage, alpha, lg, k), rp);
+                    rep.violation("spectrum", format!("|H| deviates {:.5} Np from K/|A(e^jw~)|^s (order {}, stage {}, alpha {}, log_gain {}, K {})", err, order, stage, alpha, lg, k), rp.clone());
+                    return;
+                }
+                // stationary after a change: a frame with another gain (same frequencies), or with other frequencies,
+                // then the case's parameters three times; the 3rd and 4th frame must realise the case's spectrum
+                if i % 5 != 0 {
+                    return;
+                }
+                for variant in 0..2usize {
+                    let mut first = params.clone();
+                    if variant == 0 {
+                        first[0] = if *lg { (k * 1.7).ln() } else { k * 1.7 };
+                    } else {
+                        // other frequencies: half way to uniform spacing (a flatter spectrum, so that this frame's own
+                        // pulse response has died out well before the measured frames; still increasing, well separated)
+                        let n = first.len() - 1;
+                        for (i, f) in first[1..].iter_mut().enumerate() {
+                            let u = PI * (i + 1) as f64 / (n + 1) as f64;
+                            *f = u + (*f - u) * 0.5;
+                        }
+                    }
+                    let (o, st, l, al, rate, p2) = (*order, *stage, *lg, *alpha, _rate, params.clone());
+                    let r = catch(move || {
+                        let t0 = rate / 20;
+                        let mut v = Vocoder::new(o + 1, 0, st, l, rate, al, 0.0, 1.0, t0);
+                        let mut out = Vec::new();
+                        for fi in 0..4 {
+                            let mut buf = vec![0.0; t0];
+                            v.synthesize(20f64.ln(), if fi == 0 { &first } else { &p2 }, &[], &mut buf);
+                            let sc = (t0 as f64).sqrt();
+                            out.push(buf[..t0 - 2].iter().map(|x| x / sc).collect::<Vec<f64>>());
+                        }
+                        out
+                    });
+                    rep.eval(1);
+                    match r {
+                        Err(p) => rep.violation(format!("panic@{}", site_of(&p)), p, rp.clone()),
+                        Ok(fr) => {
+                            let mut e2 = 0.0f64;
+                            for (w, wnt) in grid.iter().zip(&want) {
+                                if *wnt < peak - 100.0 * std::f64::consts::LN_10 / 20.0 {
+                                    continue;
+                                }
+                                rep.cmp(2);
+                                e2 = e2.max((logmag(&fr[2], *w) - wnt).abs()).max((logmag(&fr[3], *w) - wnt).abs());
+                            }
+                            if !(e2 <= 0.001) {
+                                rep.violation("spectrum-after-change", format!("frames 3/4 after a frame with {}: |H| deviates {:.5} Np from K/|A|^s of the (stationary) parameters (order {}, stage {}, alpha {}, log_gain {}, K {})", if variant == 0 { "another gain and the same frequencies" } else { "other frequencies" }, e2, order, stage, alpha, lg, k), rp.clone());
+                                return;
+                            }
+                        }
+                    }
                 }
             }
         }
